@@ -7,6 +7,7 @@ import StyluaModel.Lemmas.SortReq
 import StyluaModel.Lemmas.Eof
 import StyluaModel.Lemmas.Semi
 import StyluaModel.Lemmas.HangOp
+import StyluaModel.Lemmas.EndToken
 
 namespace StyluaModel.C03
 open StyluaModel.Trivia StyluaModel.TriviaLemmas StyluaModel.StrLit
@@ -160,6 +161,27 @@ disagreed with the first version of this model) -/
 theorem C03_field_key_name_loses_key_trailing :
     commentsOut (keyLeading ['\n'] true true [] [.ws false, .comment (.block 0) ['c'], .ws false] [] []) = [] := by
   decide
+
+/-! ## the token that closes a block (format_end_token) -/
+
+/-- **format_end_token** (`end`, `until`, a closing brace or parenthesis on its own line): every comment in front of
+the closing token survives the removal of blank lines - once, in order, with the text format_token gives it - for
+trivia lists of any length -/
+theorem C03_end_token (eol : List Char) (lead : List Triv) :
+    commentsOut (EndToken.endLeading eol lead) = (commentsIn lead).map (fun c => (c.1, fmtText eol c.1 c.2)) :=
+  EndTokenLemmas.end_comments eol lead
+
+/-! ## a value list laid out one value per line (format_punctuated_multiline) -/
+
+open StyluaModel.Punct StyluaModel.Semi in
+/-- **format_punctuated_multiline**: the comments in front of the comma stay in front of it, those behind the value
+move behind the comma, in front of the comma's own trailing comments - each once; and the comments in front of a
+later value get a line each (prepend_newline_indent) - for trivia lists of any length -/
+theorem C03_punct_comma (eol : List Char) (vTrail vLead : List Out) (pl pt : List Triv) :
+    commentsOut (outs (afterValue eol vTrail pl pt)) =
+      SemiLemmas.norm eol (commentsIn pl) ++ commentsOut vTrail ++ SemiLemmas.norm eol (commentsIn pt) ∧
+    commentsOut (prependNewlineIndent vLead) = commentsOut vLead :=
+  ⟨PunctLemmas.after_comments eol vTrail pl pt, PunctLemmas.prepend_comments vLead⟩
 
 /-! ## non-vacuity -/
 example : commentsOut (load ['\n'] .leading
